@@ -1,9 +1,202 @@
 import Lean.Data.Json
-/-! Driver handlers for property C18: `handle op request` answers one JSON request. -/
+import PydjinniModel.Sys.Lsp
+/-! Driver handlers for property C18: `c18.run` (the language-server model on an event list, the front end given as a
+    table computed by the real `api.parse`) and `c18.spec` (the specification on the implementation's observations). -/
 namespace Pydjinni.Drv.C18
-open Lean
+open Lean Pydjinni.Sys.Lsp
 
-def handle (op : String) (_req : Json) : Except String Json :=
-  throw s!"unknown op {op}"
+def getRange (j : Json) : Except String Range := do
+  let a ← j.getArr?
+  match a.toList with
+  | [a, b, c, d] => pure { sl := ← a.getNat?, sc := ← b.getNat?, el := ← c.getNat?, ec := ← d.getNat? }
+  | _ => throw "range"
+
+def rangeJ (r : Range) : Json := Json.arr #[r.sl, r.sc, r.el, r.ec]
+
+def optStr (j : Json) (k : String) : Option String :=
+  match j.getObjVal? k with
+  | .ok (Json.str s) => some s
+  | _ => none
+
+def getDef (j : Json) : Except String (Option DefInfo) :=
+  match j with
+  | Json.null => pure none
+  | _ => do
+    let loc ← (match j.getObjVal? "loc" with
+      | .ok Json.null | .error _ => pure none
+      | .ok v => do
+        let a ← v.getArr?
+        match a.toList with
+        | [u, r] => pure (some ((← u.getStr?), (← getRange r)))
+        | _ => throw "loc")
+    pure (some { comment := optStr j "comment", deprecated := ← j.getObjValAs? Bool "deprecated", depFile := optStr j "depFile", loc := loc })
+
+partial def getRef (j : Json) : Except String Ref := do
+  let ps ← j.getObjValAs? (Array Json) "params"
+  let params ← ps.toList.mapM getRef
+  let d ← (match j.getObjVal? "def" with | .ok v => getDef v | .error _ => pure none)
+  pure (.mk (← j.getObjValAs? Bool "own") (← j.getObjValAs? Nat "line") (← j.getObjValAs? Nat "sc") (← j.getObjValAs? Nat "ec")
+    (← j.getObjVal? "range" >>= getRange) d params)
+
+def getFileRef (j : Json) : Except String FileRef := do
+  pure { own := ← j.getObjValAs? Bool "own", line := ← j.getObjValAs? Nat "line", sc := ← j.getObjValAs? Nat "sc", ec := ← j.getObjValAs? Nat "ec",
+         range := ← j.getObjVal? "range" >>= getRange, pathText := ← j.getObjValAs? String "pathText", pathUri := ← j.getObjValAs? String "pathUri" }
+
+def getNode (j : Json) : Except String Node := do
+  pure { fileUri := ← j.getObjValAs? String "fileUri", sym := ← j.getObjValAs? String "sym", info := optStr j "info" }
+
+def listOf {α : Type} (j : Json) (k : String) (f : Json → Except String α) : Except String (List α) :=
+  match j.getObjVal? k with
+  | .ok (Json.arr a) => a.toList.mapM f
+  | _ => pure []
+
+def getFrontResult (j : Json) : Except String FrontResult := do
+  let k ← j.getObjValAs? String "k"
+  match k with
+  | "cfg" => pure .cfg
+  | "crash" => pure .crash
+  | "app" => pure (.app (← j.getObjValAs? Bool "own") (← j.getObjVal? "range" >>= getRange))
+  | "ok" => pure (.ok (← listOf j "defs" getNode) (← listOf j "refs" getRef) (← listOf j "imports" getFileRef) (← listOf j "ast" getNode))
+  | "errs" =>
+    let items ← listOf j "items" (fun it => do
+      let a ← it.getArr?
+      match a.toList with
+      | [o, r] => pure ((← o.getBool?), (← getRange r))
+      | _ => throw "item")
+    pure (.errs items (← listOf j "defs" getNode) (← listOf j "refs" getRef) (← listOf j "imports" getFileRef) (← listOf j "ast" getNode))
+  | _ => throw s!"front kind {k}"
+
+structure Row where
+  e : Nat
+  u : Uri
+  t : Text
+  r : FrontResult
+
+def getTable (req : Json) : Except String (List Row) :=
+  listOf req "front" (fun j => do
+    pure { e := ← j.getObjValAs? Nat "e", u := ← j.getObjValAs? String "u", t := ← j.getObjValAs? Nat "t", r := ← j.getObjVal? "r" >>= getFrontResult })
+
+def frontOf (table : List Row) : Front := fun e u t =>
+  match table.find? (fun row => row.e == e && row.u == u && row.t == t) with
+  | some row => row.r
+  | none => .crash
+
+def getEv (j : Json) : Except String Ev := do
+  let k ← j.getObjValAs? String "ev"
+  match k with
+  | "open" => pure (.open_ (← j.getObjValAs? String "u") (← j.getObjValAs? Nat "t"))
+  | "change" => pure (.change (← j.getObjValAs? String "u") (← j.getObjValAs? Nat "t"))
+  | "close" => pure (.close (← j.getObjValAs? String "u"))
+  | "save" => pure (.save (← j.getObjValAs? String "u"))
+  | "hover" => pure (.hover (← j.getObjValAs? String "u") (← j.getObjValAs? Nat "line") (← j.getObjValAs? Nat "col"))
+  | "definition" => pure (.definition (← j.getObjValAs? String "u") (← j.getObjValAs? Nat "line") (← j.getObjValAs? Nat "col"))
+  | "symbols" => pure (.symbols (← j.getObjValAs? String "u") (← j.getObjValAs? Bool "hier"))
+  | "watched" => pure (.watched (← listOf j "changes" (·.getStr?)))
+  | "disk" => pure .disk
+  | _ => throw s!"event {k}"
+
+def diagJ (d : Diag) : Json := Json.arr #[d.severity, rangeJ d.range]
+def pubsJ (p : List (Uri × List Diag)) : Json := Json.arr (p.map fun (u, ds) => Json.arr #[u, Json.arr (ds.map diagJ).toArray]).toArray
+
+def answerJ : Answer → Json
+  | .none => Json.mkObj [("a", "none")]
+  | .null => Json.mkObj [("a", "null")]
+  | .hover t r => Json.mkObj [("a", "hover"), ("text", t), ("range", rangeJ r)]
+  | .location u r => Json.mkObj [("a", "location"), ("uri", u), ("range", rangeJ r)]
+  | .symbols l => Json.mkObj [("a", "symbols"), ("l", Json.arr (l.map Json.str).toArray)]
+
+def getAnswer (j : Json) : Except String Answer := do
+  let k ← j.getObjValAs? String "a"
+  match k with
+  | "none" => pure .none
+  | "null" => pure .null
+  | "hover" => pure (.hover (← j.getObjValAs? String "text") (← j.getObjVal? "range" >>= getRange))
+  | "location" => pure (.location (← j.getObjValAs? String "uri") (← j.getObjVal? "range" >>= getRange))
+  | "symbols" => pure (.symbols (← listOf j "l" (·.getStr?)))
+  | _ => throw s!"answer {k}"
+
+def outJ (o : Out) : Json :=
+  Json.mkObj [("pubs", pubsJ o.pubs), ("answer", answerJ o.answer), ("errors", o.errors), ("misuse", o.misuse)]
+
+/-- every (epoch, uri, text) the event list can ask the front end for must be in the table -/
+def missingRows (table : List Row) (evs : List Ev) : List String :=
+  let epochs := List.range ((evs.filter (fun e => match e with | .disk => true | _ => false)).length + 1)
+  let uts := evs.filterMap (fun e => match e with | .open_ u t => some (u, t) | .change u t => some (u, t) | _ => none)
+  epochs.flatMap fun e => uts.filterMap fun (u, t) =>
+    if table.any (fun row => row.e == e && row.u == u && row.t == t) then none else some s!"{e}/{u}/{t}"
+
+def runOp (req : Json) : Except String Json := do
+  let table ← getTable req
+  let configUri ← req.getObjValAs? String "configUri"
+  let evs ← listOf req "events" getEv
+  match missingRows table evs with
+  | m :: _ => throw s!"front table lacks {m}"
+  | [] =>
+    let front := frontOf table
+    let (_, outs) := evs.foldl (fun (acc : St × List Out) e => let (s1, o) := step front configUri acc.1 e; (s1, acc.2 ++ [o])) (init, [])
+    pure (Json.mkObj [("outs", Json.arr (outs.map outJ).toArray)])
+
+def getDiag (j : Json) : Except String Diag := do
+  let a ← j.getArr?
+  match a.toList with
+  | [s, r] => pure { severity := ← s.getNat?, range := ← getRange r }
+  | _ => throw "diag"
+
+def getPubs (j : Json) : Except String (List (Uri × List Diag)) :=
+  listOf j "pubs" (fun p => do
+    let a ← p.getArr?
+    match a.toList with
+    | [u, ds] => do
+      let dl ← ds.getArr?
+      pure ((← u.getStr?), (← dl.toList.mapM getDiag))
+    | _ => throw "pub")
+
+def specOp (req : Json) : Except String Json := do
+  let table ← getTable req
+  let evs ← listOf req "events" getEv
+  let outs ← listOf req "impl" (fun o => do
+    pure ((← getPubs o), (← o.getObjVal? "answer" >>= getAnswer), (← o.getObjValAs? Nat "errors")))
+  if evs.length != outs.length then throw "events/impl length" else
+  let failed := specCheck (frontOf table) (evs.zip outs) 0 0 (fun _ => none) []
+  pure (Json.mkObj [("holds", failed.isEmpty),
+    ("failed", Json.arr (failed.map fun (i, c) => Json.arr #[i, c]).toArray)])
+
+def getOut (o : Json) : Except String Out := do
+  pure { pubs := ← getPubs o, answer := ← o.getObjVal? "answer" >>= getAnswer, errors := ← o.getObjValAs? Nat "errors",
+         misuse := (o.getObjValAs? Bool "misuse").toOption.getD false }
+
+def modelOuts (front : Front) (configUri : Uri) (evs : List Ev) : List Out :=
+  (evs.foldl (fun (acc : St × List Out) e => let (s1, o) := step front configUri acc.1 e; (s1, acc.2 ++ [o])) (init, [])).2
+
+def firstDiff : List Out → List Out → Nat → Option (Nat × Out × Out)
+  | m :: ms, i :: is, k => if m == i then firstDiff ms is (k + 1) else some (k, m, i)
+  | _, _, _ => none
+
+/-- `c18.check`: one front table, many event lists with the implementation's observations: per item the first event at which
+    model and implementation differ (if any) and the violated specification clauses -/
+def checkOp (req : Json) : Except String Json := do
+  let table ← getTable req
+  let configUri ← req.getObjValAs? String "configUri"
+  let front := frontOf table
+  let items ← listOf req "items" (fun it => do
+    let evs ← listOf it "events" getEv
+    let outs ← listOf it "impl" getOut
+    if evs.length != outs.length then throw "events/impl length"
+    match missingRows table evs with
+    | m :: _ => throw s!"front table lacks {m}"
+    | [] => pure ()
+    let corr := match firstDiff (modelOuts front configUri evs) outs 0 with
+      | some (k, m, i) => Json.mkObj [("index", k), ("model", outJ m), ("impl", outJ i)]
+      | none => Json.null
+    let failed := specCheck front (evs.zip (outs.map fun o => (o.pubs, o.answer, o.errors))) 0 0 (fun _ => none) []
+    pure (Json.mkObj [("corr", corr), ("spec", Json.arr (failed.map fun (i, c) => Json.arr #[i, c]).toArray)]))
+  pure (Json.mkObj [("results", Json.arr items.toArray)])
+
+def handle (op : String) (req : Json) : Except String Json :=
+  match op with
+  | "c18.check" => checkOp req
+  | "c18.run" => runOp req
+  | "c18.spec" => specOp req
+  | _ => throw s!"unknown op {op}"
 
 end Pydjinni.Drv.C18
